@@ -5,6 +5,7 @@
 package unary
 
 //@ func NewUnaryNegation
+//@   assigns nothing
 //@   requires stepsBatch >= 0
 //@   ensures[C08] never-fails: result1 == nil && result0 != nil
 //@   ensures[C06] wraps-next: istype(result0, *unary.unaryNegation) && cast(result0, *unary.unaryNegation).next == next
